@@ -165,4 +165,71 @@ theorem signal_deaths_are_errors :
 /-- all three drivers are in the table, with the same 13 codes each -/
 theorem run_table_complete : Gen.pyRun.map (·.1) = ["clang", "clangbinarysearch", "clex"] ∧ Gen.pyRun.all (fun d => d.2.length == 13) = true := by decide
 
+
+/-- the requests of one granularity when every candidate is rejected: follow `advance` until it wraps (index 0 again) or ends -/
+def level (s : BS) : Nat → List (Nat × Nat)
+  | 0 => []
+  | fuel + 1 => request s :: (match s.advance with
+      | some t => if t.index = 0 then [] else level t fuel
+      | none => [])
+
+/-- the instances a request names, in order -/
+def expand (r : Nat × Nat) : List Nat := List.range' r.1 (r.2 + 1 - r.1)
+
+theorem level_tiles_from : ∀ (fuel : Nat) (s : BS), s.Inv → s.instances - s.index ≤ fuel →
+    (level s fuel).flatMap expand = List.range' (s.index + 1) (s.instances - s.index) := by
+  intro fuel
+  induction fuel with
+  | zero => intro s h hf; have := h.1; omega
+  | succ fuel ih =>
+    intro s h hf
+    have h1 := h.1
+    have h2 := h.2
+    simp only [level, List.flatMap_cons]
+    cases ha : s.advance with
+    | none =>
+      obtain ⟨hc, hi⟩ := BS.advance_none h ha
+      have e : s.instances - s.index = 1 := by omega
+      simp [expand, request, BS.end_, e, hc]
+      have : min (s.index + 1) s.instances = s.index + 1 := by omega
+      simp [this]
+    | some t =>
+      obtain ⟨hti, hinst, hcase⟩ := BS.advance_inv h ha
+      rcases hcase with ⟨hc, hidx⟩ | ⟨hc, hidx, hge⟩
+      · have hne : t.index ≠ 0 := by omega
+        have hlt : t.index < t.instances := hti.1
+        simp only [hne, if_false]
+        rw [ih t hti (by omega)]
+        have e1 : expand (request s) = List.range' (s.index + 1) s.chunk := by
+          simp only [expand, request, BS.end_]
+          have : min (s.index + s.chunk) s.instances = s.index + s.chunk := by omega
+          rw [this]; congr 1; omega
+        rw [e1, hidx, hinst]
+        have : s.instances - s.index = s.chunk + (s.instances - (s.index + s.chunk)) := by omega
+        rw [this, ← List.range'_append_1]
+        congr 2; omega
+      · simp only [hidx, if_true, List.flatMap_nil, List.append_nil]
+        simp only [expand, request, BS.end_]
+        have : min (s.index + s.chunk) s.instances = s.instances := by omega
+        rw [this]; congr 1; omega
+
+/-- **the ranges of one granularity tile the instances**: started at index 0 and rejected throughout, the requests of a level
+    name every instance 1..N exactly once, in order -/
+theorem level_tiles (s : BS) (h : s.Inv) (h0 : s.index = 0) (fuel : Nat) (hf : s.instances ≤ fuel) :
+    (level s fuel).flatMap expand = List.range' 1 s.instances := by
+  have := level_tiles_from fuel s h (by omega)
+  simpa [h0] using this
+
+example : (level ⟨0, 3, 10⟩ 10) = [(1, 3), (4, 6), (7, 9), (10, 10)] := by decide
+
+/-- after an accepted removal the rest of the level tiles what is left, from the position the driver continues at: with the
+    tool-reported count minus the removed chunk as the new N, the remaining requests name `index+1 .. N` exactly once -/
+theorem level_tiles_after_accept (s t : BS) (reported : Nat) (h : s.Inv)
+    (ha : s.advanceOnSuccess (reported - s.realChunk) = some t) (fuel : Nat) (hf : reported - s.realChunk ≤ fuel) :
+    (level t fuel).flatMap expand = List.range' (t.index + 1) (reported - s.realChunk - t.index) := by
+  obtain ⟨h1, h2, _⟩ := after_accept s t reported h ha
+  have := level_tiles_from fuel t h2 (by omega)
+  rw [h1] at this
+  exact this
+
 end Cvise.C15
